@@ -11,7 +11,7 @@ RULE = ("random binary/integer images of 1-4 D (incl. strongly elongated 1xn, nx
         "neighbours of a pixel are nearer to other sites than the pixel's own nearest site (found by a geometric search), under "
         "all 8 symmetries, embedded as 1xHxW / HxWx1 / HxW; every 1-D line is also run through the extracted lower-envelope "
         "model against the extracted min-plus specification. gvoronoi: label of a nearest labelled pixel (ties: any) and equal to "
-        "the model. thorough: all binary images <=3x4 and <=2x2x3. Non-trivial: image has both foreground and background")
+        "the model. thorough: all binary images <=3x4 and <=2x2x3. Non-trivial: image has both foreground and background Added: lines of 46341-70001 pixels in four embeddings (distance and gvoronoi, exact reference by construction); gvoronoi labels of every integer dtype incl. values beyond 2**31, 2**32, 2**53 and negative ones (the model sees them through an injective renaming).")
 NOT_PROVED = ["the tie of the hand-written Coq model (Model/Distance.v: parabola stack with cross-multiplied intersections, forward "
               "sweep, one pass per axis, origin tracking) to _distance.cpp / distance.py / segmentation.py is the correspondence check; "
               "the model itself is proved exact for all inputs (dt1d_spec, distance_exact, gvoronoi_nearest_label)",
